@@ -200,6 +200,8 @@ type c09RandIn struct {
 	MaxRead  int  `json:"max_read,omitempty"`
 	// ErrKind selects the error value the failing source returns (probe.InjectedErrors: plain, EAGAIN, EINTR, EOF, ...)
 	ErrKind int `json:"error_kind,omitempty"`
+	// Peer (reflection mode): the peer's value handed to CalculateDiffieHellmanMaterials (empty: this side's own public value)
+	Peer model.Bytes `json:"peer_value,omitempty"`
 }
 
 // inject runs f with the failing random source the input describes (failure at a Read call, or after a byte budget).
@@ -213,6 +215,24 @@ var c09Random = probe.Define("C09", "exponents", func(t *rapid.T) c09RandIn {
 	case 3:
 		in.Mode = "reflection"
 		in.Stream = gen.Fill(t, "stream", rapid.IntRange(8, 64).Draw(t, "len"))
+		if rapid.IntRange(0, 2).Draw(t, "peer") != 0 {
+			// any octet string is a peer value (it is a number); among them the strings a Key Exchange payload of this group
+			// carries in one format or another (one octet in front, the four octets of the payload body's start in front, ...)
+			id := []uint16{2, 14}[in.Group]
+			var shapes []gen.KEShape
+			for _, sh := range gen.KEShapes() {
+				if sh.Group == id {
+					shapes = append(shapes, sh)
+				}
+			}
+			in.Peer = append(model.Bytes(nil), rapid.SampledFrom(shapes).Draw(t, "peershape").Data...)
+			if len(in.Peer) > 8 {
+				copy(in.Peer[4:], gen.Fill(t, "peerdata", len(in.Peer)-4))
+			}
+			if rapid.IntRange(0, 3).Draw(t, "peer.any") == 3 {
+				in.Peer = gen.BytesLen(t, "peerany", 1, 600, 1, 127, 128, 129, 132, 255, 256, 257, 260)
+			}
+		}
 	case 0:
 		in.Mode = "range"
 		in.Stream = gen.Fill(t, "stream", rapid.IntRange(0, 300).Draw(t, "len"))
@@ -310,23 +330,28 @@ var c09Random = probe.Define("C09", "exponents", func(t *rapid.T) c09RandIn {
 		P := refPrime(in.Group)
 		n := ref.DHs[in.Group].Bits / 8
 		own := ref.LeftPad(ref.ModExp(bigTwo, x, P), n)
+		peer, what := own, "equal to this side's own public value"
+		if len(in.Peer) > 0 {
+			peer, what = append([]byte(nil), in.Peer...), fmt.Sprintf("of %d octets", len(in.Peer))
+			labels = append(labels, "peer-value-given")
+		}
 		sa := newInfoSA(bridge.SuiteSel{DH: in.Group})
 		var pub, shared []byte
 		probe.WithEntropyOpts(probe.EntropyOpts{Stream: in.Stream, MaxRead: in.MaxRead}, func(*probe.Entropy) {
 			err = probe.Try(func() error {
 				var e error
-				pub, shared, e = security.CalculateDiffieHellmanMaterials(sa, own)
+				pub, shared, e = security.CalculateDiffieHellmanMaterials(sa, probe.Exact(peer))
 				return e
 			})
 		})
 		if err != nil {
-			return probe.Fail("CalculateDiffieHellmanMaterials with a peer value equal to this side's own public value: %v", err)
+			return probe.Fail("CalculateDiffieHellmanMaterials with a peer value %s: %v", what, err)
 		}
 		if !bytes.Equal(pub, own) {
 			return probe.Fail("the same random stream gives another exponent inside CalculateDiffieHellmanMaterials than through GenerateRandomNumber (harness assumption) - or the public value is wrong")
 		}
-		if want := ref.LeftPad(ref.ModExp(new(big.Int).SetBytes(own), x, P), n); !bytes.Equal(shared, want) {
-			return probe.Fail("shared secret for a peer value equal to the own public value is not (g^x)^x mod p")
+		if want := ref.LeftPad(ref.ModExp(new(big.Int).SetBytes(peer), x, P), n); !bytes.Equal(shared, want) {
+			return probe.Fail("shared secret for a peer value %s is not y^x mod p (y = the peer's octets read as a number), %d octets", what, len(shared))
 		}
 	case "fault":
 		// the fault-free run tells how many reads there are; a failure at read k <= that many must surface
@@ -473,6 +498,15 @@ func TestC09(t *testing.T) {
 			}
 			for _, b := range []int{1, 2, 16, 128, 255} {
 				c09Random.Eval(c, c09RandIn{Group: g, Mode: "fault", Stream: model.Bytes{9, 9}, Budget: b})
+			}
+		}
+	}
+	if c.Shard == 0 {
+		for g, id := range []uint16{2, 14} {
+			for _, sh := range gen.KEShapes() {
+				if sh.Group == id {
+					c09Random.Eval(c, c09RandIn{Group: g, Mode: "reflection", Stream: model.Bytes{7, 7, 7, 7, 7, 7, 7, 7, 7, 1}, Peer: sh.Data})
+				}
 			}
 		}
 	}
